@@ -127,3 +127,11 @@ Example c01_fn_bound_needed :
     CC (unions_of cs) (T 0 []) (T 1 []) /\
     eval s (T 0 []) = Some (VId 0) /\ eval s (T 1 []) = Some (VId 2).
 Proof. exact CC.c01_fn_bound_needed. Qed.
+
+(** ... and so is the restriction of unions to constructor terms (an ill-sorted union of two
+    integer literals is ignored by [exec] but recorded by [unions_of]) *)
+Example c01_eqsort_needed :
+  let cs := [CUnion (TI 1) (TI 2)] in
+  exists s, run [] (init 0) cs = Ok s /\
+    CC (unions_of cs) (TI 1) (TI 2) /\ eval s (TI 1) = Some (VInt 1) /\ eval s (TI 2) = Some (VInt 2).
+Proof. exact CC.c01_eqsort_needed. Qed.
